@@ -1822,12 +1822,31 @@ theorem word_handlers_src (cfg : CheckCfg) (v : SrcLink.CdpRunningValidator) (s 
    fun hcur => ⟨SrcTie.check_tdh_no_continuation_eq cfg v s c w h hcur, SrcTie.check_tdh_continuation_eq cfg v s c w h hcur,
      SrcTie.check_tdh_after_packet_done_eq cfg v s c w h hcur⟩⟩
 
+/-- the remaining handlers, in every configuration without the readout-frame validator (`cfg.stave = false`: `check sanity`, `check all`,
+    `check all its`; the translation is specialised to `readout_frame_validator = None`): `preprocess_tdh` = `preTdh` ([E40], the TDH buffer
+    update of C20 `pairing`), `preprocess_tdt` = `preTdt` ([E50]), `preprocess_data_word` (with `process_cdw`, `process_ib_data_word`,
+    `process_ob_data_word`, `set_data_seen`) = `preData` whenever the model does not stop at its panic site (no IHW stored) — [E70], [E72],
+    [E71], [E73], [E81] — and `check_tdh_trigger_interval` = `tdhTriggerInterval` ([E45], sent without a word dump) -/
+theorem word_handlers_nonstave_src (cfg : CheckCfg) (v : SrcLink.CdpRunningValidator) (s : CdpSt) (c : SrcRdh.RdhCru) (w : Bytes)
+    (h : SrcTie.Abs cfg v s c) (hst : cfg.stave = false) :
+    (SrcTie.Abs cfg (v.preprocess_tdh w).2 (preTdh cfg s w).1 c ∧
+      SrcTie.outMsgs (v.preprocess_tdh w).2.f_out = SrcTie.outMsgs v.f_out ++ (preTdh cfg s w).2) ∧
+    (∃ s' ms, preTdt cfg s w = .ok (s', ms) ∧ SrcTie.Abs cfg (v.preprocess_tdt w).2 s' c ∧
+      SrcTie.outMsgs (v.preprocess_tdt w).2.f_out = SrcTie.outMsgs v.f_out ++ ms) ∧
+    (∀ s' ms, preData cfg s w = .ok (s', ms) → SrcTie.Abs cfg (v.preprocess_data_word w).2 s' c ∧
+      SrcTie.outMsgs (v.preprocess_data_word w).2.f_out = SrcTie.outMsgs v.f_out ++ ms) ∧
+    ((s.tdh.isSome = true ∨ s.prevInternalTdh = none) → SrcTie.Abs cfg (v.check_tdh_trigger_interval w).2 s c ∧
+      SrcTie.outMsgs (v.check_tdh_trigger_interval w).2.f_out = SrcTie.outMsgs v.f_out ++ tdhTriggerInterval cfg s) :=
+  ⟨SrcTie.preprocess_tdh_eq cfg v s c w h hst, SrcTie.preprocess_tdt_eq cfg v s c w h hst,
+   fun s' ms hok => SrcTie.preprocess_data_word_eq cfg v s c w h hst s' ms hok,
+   fun hc => SrcTie.check_tdh_trigger_interval_eq cfg v s c w h hc⟩
+
 /-- non-vacuity: a freshly built source validator stands for the model's state at the first word of a packet -/
 example : SrcTie.Abs { running := true }
     { f_running_checks_enabled := true, f_tracker := { f_payload_mem_pos := 64, f_gbt_word_counter := 1, f_gbt_word_padding_size_bytes := 0, f_is_start_of_data := true },
-      f_rdh_validator := SrcState.ItsRdhValidator.new default, f_status_words := SrcState.StatusWordContainer.new_const, f_out := [] }
+      f_rdh_validator := SrcState.ItsRdhValidator.new default, f_status_words := SrcState.StatusWordContainer.new_const, f_out := [], f_trigger_period := none }
     { payloadPos := 64, wordCount := 1, slot := 10, rdh := SrcTie.toModel default } default :=
-  ⟨rfl, by decide, rfl, rfl, rfl, rfl, rfl, rfl, rfl⟩
+  ⟨rfl, rfl, rfl, by decide, rfl, rfl, rfl, rfl, rfl, rfl, rfl⟩
 
 
 /-! ### tie by translation: the state-dependent rule checks are the source's (`Spec/StateSrcGen.lean`) -/
